@@ -321,7 +321,11 @@ namespace vw
     {
         GridSpec& g = w.grid;
         g.kind = m_kind;
-        const std::size_t max_nodes = thorough ? 144 : 64;
+        // mostly small worlds (many short diverse runs); a few larger ones so that size-dependent paths
+        // (many basins, high-degree basins, long levels) are reached as well
+        const bool large = r.chance(thorough ? 0.04 : 0.01);
+        const std::size_t max_nodes = large ? 400 : (thorough ? 144 : 64);
+        const long max_dim = large ? 20 : (thorough ? 12 : 8);
         auto border = [&r]() -> int
         {
             double u = r.unit();
@@ -330,7 +334,7 @@ namespace vw
         if (m_kind == G_PROFILE)
         {
             g.rows = 1;
-            g.cols = static_cast<std::size_t>(r.range(2, thorough ? 40 : 16));
+            g.cols = static_cast<std::size_t>(r.range(2, large ? 200 : (thorough ? 40 : 16)));
             g.dx = 0.25 + 3.0 * r.unit();
             if (r.chance(0.2))
                 g.bs[0] = g.bs[1] = 3;
@@ -344,8 +348,8 @@ namespace vw
         {
             do
             {
-                g.rows = static_cast<std::size_t>(r.range(2, thorough ? 12 : 8));
-                g.cols = static_cast<std::size_t>(r.range(2, thorough ? 12 : 8));
+                g.rows = static_cast<std::size_t>(r.range(2, max_dim));
+                g.cols = static_cast<std::size_t>(r.range(2, max_dim));
             } while (g.rows * g.cols > max_nodes);
             g.dy = r.chance(0.3) ? 1.0 : 0.25 + 3.0 * r.unit();
             g.dx = r.chance(0.3) ? g.dy : 0.25 + 3.0 * r.unit();
@@ -360,8 +364,8 @@ namespace vw
         {
             do
             {
-                g.mesh_nx = static_cast<std::size_t>(r.range(2, thorough ? 10 : 7));
-                g.mesh_ny = static_cast<std::size_t>(r.range(2, thorough ? 10 : 7));
+                g.mesh_nx = static_cast<std::size_t>(r.range(2, large ? 18 : (thorough ? 10 : 7)));
+                g.mesh_ny = static_cast<std::size_t>(r.range(2, large ? 18 : (thorough ? 10 : 7)));
             } while (g.mesh_nx * g.mesh_ny > max_nodes);
             g.mesh_seed = r.next() % 1000000;
             g.mesh_holes = static_cast<int>(r.range(0, 2));
@@ -1279,8 +1283,23 @@ namespace vw
                         if (bad.empty() && h.b >= 4)
                         {
                             std::size_t rr = idx / gs.cols, cc = idx % gs.cols;
-                            auto rnb = grid.neighbors(rr, cc);
-                            auto rind = grid.neighbors_indices(rr, cc);
+                            // by-value overloads or the output-container overloads with a stale container
+                            // (size and content left over from "another node")
+                            typename G::neighbors_raster_type rnb;
+                            typename G::neighbors_indices_raster_type rind;
+                            if (h.b % 2 == 0)
+                            {
+                                rnb = grid.neighbors(rr, cc);
+                                rind = grid.neighbors_indices(rr, cc);
+                            }
+                            else
+                            {
+                                rnb.resize(static_cast<std::size_t>(h.c), fs::raster_neighbor{ 0, 0, 0, -1.0, fs::node_status::core });
+                                rind.resize(static_cast<std::size_t>(h.c), { 0, 0 });
+                                grid.neighbors(rr, cc, rnb);
+                                grid.neighbors_indices(rr, cc, rind);
+                                ++C["p.rowcol_out_container_queries"];
+                            }
                             if (rnb.size() != cnt || rind.size() != cnt)
                                 bad = "(row, col) accessors disagree on the number of neighbours";
                             for (std::size_t k = 0; k < cnt && bad.empty(); ++k)
